@@ -340,7 +340,7 @@ func (r *stressRun) cycle(srv *dns.Server, cycle int) (overlap bool, err error) 
 			return false, fmt.Errorf("I6: UDP socket was still open after shutdown")
 		}
 	}
-	deadline := time.Now().Add(2 * time.Second)
+	deadline := time.Now().Add(leakPoll)
 	for {
 		g := dnsGoroutines()
 		if len(g) == 0 {
@@ -350,7 +350,7 @@ func (r *stressRun) cycle(srv *dns.Server, cycle int) (overlap bool, err error) 
 			break
 		}
 		if time.Now().After(deadline) {
-			return false, fmt.Errorf("I6: %d goroutine(s) of the server remain 2s after shutdown completed:\n%s", len(g), clip(strings.Join(g, "\n\n"), 4000))
+			return false, fmt.Errorf("I6: %d goroutine(s) of the server remain 5s after shutdown completed:\n%s", len(g), clip(strings.Join(g, "\n\n"), 4000))
 		}
 		time.Sleep(2 * time.Millisecond)
 	}
